@@ -80,7 +80,9 @@ def e_int(i):
 
 def o_s(s):
     if not isinstance(s, str):
-        s = s.filename  # FileStorage values of a FileMultiDict are identified by their filename
+        # FileStorage values of a FileMultiDict are identified by their filename; anything else that
+        # is not text is shown by type and repr (it will not match a text model value)
+        s = s.filename if hasattr(s, "filename") else f"<{type(s).__name__}:{s!r}>"
     return hs(s)
 
 
